@@ -159,6 +159,14 @@ W8Ops == Call("load", {K("N2","d"), K("L0","a")}) \cup {Simple("enhance"), Simpl
          \cup {NotifyOp(b) : b \in {{FileE("a","x")}, {FileE("b","x")}}}
          \cup {EditOp(F("a","x"), c) : c \in {CVal(2), CBad}} \cup {EditOp(F("b","x"), CVal(5))}
 
+(* W9n: a nested load that fails and is tolerated is a dependency all the same: when the asset exists *)
+(* later and is reloaded, the outer asset follows (C14, C05) ------------------------------------------ *)
+W9nKeys == {K("L0","a"), K("N0","d")}
+W9nFiles == {F("a","x"), F("d","y")}
+W9nSrcs == {[f \in W9nFiles |-> IF f = F("a","x") THEN c ELSE CVal(1)] : c \in {None, CBad}}
+W9nScripts == (K("N0","d") :> <<ILoad("L0","a",FALSE), IRead("d","y")>>)
+W9nOps == Call("load", W9nKeys) \cup {Simple("hot_reload"), NotifyOp({FileE("a","x")}), EditOp(F("a","x"), CVal(2))}
+
 (* W9: attribution of dependencies (C14): no_record, load_owned, nesting ----- *)
 W9Keys == {K("L0","a"), K("L0","b"), K("L0","c"), K("L2","a"), K("N0","d"), K("N1","d.a"), K("N4","d.b")}
 W9Files == {F("a","x"), F("b","x"), F("c","x"), F("d","y")}
